@@ -2,217 +2,21 @@
 //! modes: c35 (networking closures + demux routing), c39 (quorum helpers), c41 (compiled flows)
 mod c35;
 mod c39;
+mod c41;
 mod val;
 
-#[allow(unused_imports, unused_qualifications, missing_docs, non_snake_case, unused, clippy::all)]
-mod gen_c35 {
-    pub mod o2o_t0 {
-        include!(concat!(env!("OUT_DIR"), "/o2o_t0.rs"));
-    }
-    pub mod m2m_t0 {
-        include!(concat!(env!("OUT_DIR"), "/m2m_t0.rs"));
-    }
-    pub mod o2m_t0 {
-        include!(concat!(env!("OUT_DIR"), "/o2m_t0.rs"));
-    }
-    pub mod m2o_t0 {
-        include!(concat!(env!("OUT_DIR"), "/m2o_t0.rs"));
-    }
-    pub mod o2o_t1 {
-        include!(concat!(env!("OUT_DIR"), "/o2o_t1.rs"));
-    }
-    pub mod m2m_t1 {
-        include!(concat!(env!("OUT_DIR"), "/m2m_t1.rs"));
-    }
-    pub mod o2m_t1 {
-        include!(concat!(env!("OUT_DIR"), "/o2m_t1.rs"));
-    }
-    pub mod m2o_t1 {
-        include!(concat!(env!("OUT_DIR"), "/m2o_t1.rs"));
-    }
-    pub mod o2o_t2 {
-        include!(concat!(env!("OUT_DIR"), "/o2o_t2.rs"));
-    }
-    pub mod m2m_t2 {
-        include!(concat!(env!("OUT_DIR"), "/m2m_t2.rs"));
-    }
-    pub mod o2m_t2 {
-        include!(concat!(env!("OUT_DIR"), "/o2m_t2.rs"));
-    }
-    pub mod m2o_t2 {
-        include!(concat!(env!("OUT_DIR"), "/m2o_t2.rs"));
-    }
-    pub mod o2o_t3 {
-        include!(concat!(env!("OUT_DIR"), "/o2o_t3.rs"));
-    }
-    pub mod m2m_t3 {
-        include!(concat!(env!("OUT_DIR"), "/m2m_t3.rs"));
-    }
-    pub mod o2m_t3 {
-        include!(concat!(env!("OUT_DIR"), "/o2m_t3.rs"));
-    }
-    pub mod m2o_t3 {
-        include!(concat!(env!("OUT_DIR"), "/m2o_t3.rs"));
-    }
-    pub mod o2o_t4 {
-        include!(concat!(env!("OUT_DIR"), "/o2o_t4.rs"));
-    }
-    pub mod m2m_t4 {
-        include!(concat!(env!("OUT_DIR"), "/m2m_t4.rs"));
-    }
-    pub mod o2m_t4 {
-        include!(concat!(env!("OUT_DIR"), "/o2m_t4.rs"));
-    }
-    pub mod m2o_t4 {
-        include!(concat!(env!("OUT_DIR"), "/m2o_t4.rs"));
-    }
-    pub mod o2o_t5 {
-        include!(concat!(env!("OUT_DIR"), "/o2o_t5.rs"));
-    }
-    pub mod m2m_t5 {
-        include!(concat!(env!("OUT_DIR"), "/m2m_t5.rs"));
-    }
-    pub mod o2m_t5 {
-        include!(concat!(env!("OUT_DIR"), "/o2m_t5.rs"));
-    }
-    pub mod m2o_t5 {
-        include!(concat!(env!("OUT_DIR"), "/m2o_t5.rs"));
-    }
-    pub mod o2o_t6 {
-        include!(concat!(env!("OUT_DIR"), "/o2o_t6.rs"));
-    }
-    pub mod m2m_t6 {
-        include!(concat!(env!("OUT_DIR"), "/m2m_t6.rs"));
-    }
-    pub mod o2m_t6 {
-        include!(concat!(env!("OUT_DIR"), "/o2m_t6.rs"));
-    }
-    pub mod m2o_t6 {
-        include!(concat!(env!("OUT_DIR"), "/m2o_t6.rs"));
-    }
-    pub mod o2o_t7 {
-        include!(concat!(env!("OUT_DIR"), "/o2o_t7.rs"));
-    }
-    pub mod m2m_t7 {
-        include!(concat!(env!("OUT_DIR"), "/m2m_t7.rs"));
-    }
-    pub mod o2m_t7 {
-        include!(concat!(env!("OUT_DIR"), "/o2m_t7.rs"));
-    }
-    pub mod m2o_t7 {
-        include!(concat!(env!("OUT_DIR"), "/m2o_t7.rs"));
-    }
-    pub mod o2o_t8 {
-        include!(concat!(env!("OUT_DIR"), "/o2o_t8.rs"));
-    }
-    pub mod m2m_t8 {
-        include!(concat!(env!("OUT_DIR"), "/m2m_t8.rs"));
-    }
-    pub mod o2m_t8 {
-        include!(concat!(env!("OUT_DIR"), "/o2m_t8.rs"));
-    }
-    pub mod m2o_t8 {
-        include!(concat!(env!("OUT_DIR"), "/m2o_t8.rs"));
-    }
-    pub mod o2o_t9 {
-        include!(concat!(env!("OUT_DIR"), "/o2o_t9.rs"));
-    }
-    pub mod m2m_t9 {
-        include!(concat!(env!("OUT_DIR"), "/m2m_t9.rs"));
-    }
-    pub mod o2m_t9 {
-        include!(concat!(env!("OUT_DIR"), "/o2m_t9.rs"));
-    }
-    pub mod m2o_t9 {
-        include!(concat!(env!("OUT_DIR"), "/m2o_t9.rs"));
-    }
-    pub mod o2o_t10 {
-        include!(concat!(env!("OUT_DIR"), "/o2o_t10.rs"));
-    }
-    pub mod m2m_t10 {
-        include!(concat!(env!("OUT_DIR"), "/m2m_t10.rs"));
-    }
-    pub mod o2m_t10 {
-        include!(concat!(env!("OUT_DIR"), "/o2m_t10.rs"));
-    }
-    pub mod m2o_t10 {
-        include!(concat!(env!("OUT_DIR"), "/m2o_t10.rs"));
-    }
-    pub mod o2o_t11 {
-        include!(concat!(env!("OUT_DIR"), "/o2o_t11.rs"));
-    }
-    pub mod m2m_t11 {
-        include!(concat!(env!("OUT_DIR"), "/m2m_t11.rs"));
-    }
-    pub mod o2m_t11 {
-        include!(concat!(env!("OUT_DIR"), "/o2m_t11.rs"));
-    }
-    pub mod m2o_t11 {
-        include!(concat!(env!("OUT_DIR"), "/m2o_t11.rs"));
-    }
-}
-
-#[allow(unused_imports, unused_qualifications, missing_docs, non_snake_case, unused, clippy::all)]
-mod gen_c39 {
-    pub mod q_1_1 {
-        include!(concat!(env!("OUT_DIR"), "/q_1_1.rs"));
-    }
-    pub mod q_2_2 {
-        include!(concat!(env!("OUT_DIR"), "/q_2_2.rs"));
-    }
-    pub mod q_3_3 {
-        include!(concat!(env!("OUT_DIR"), "/q_3_3.rs"));
-    }
-    pub mod q_1_2 {
-        include!(concat!(env!("OUT_DIR"), "/q_1_2.rs"));
-    }
-    pub mod q_1_3 {
-        include!(concat!(env!("OUT_DIR"), "/q_1_3.rs"));
-    }
-    pub mod q_2_3 {
-        include!(concat!(env!("OUT_DIR"), "/q_2_3.rs"));
-    }
-    pub mod q_2_4 {
-        include!(concat!(env!("OUT_DIR"), "/q_2_4.rs"));
-    }
-    pub mod q_3_5 {
-        include!(concat!(env!("OUT_DIR"), "/q_3_5.rs"));
-    }
-    pub mod w_1_1 {
-        include!(concat!(env!("OUT_DIR"), "/w_1_1.rs"));
-    }
-    pub mod w_2_2 {
-        include!(concat!(env!("OUT_DIR"), "/w_2_2.rs"));
-    }
-    pub mod w_3_3 {
-        include!(concat!(env!("OUT_DIR"), "/w_3_3.rs"));
-    }
-    pub mod w_1_2 {
-        include!(concat!(env!("OUT_DIR"), "/w_1_2.rs"));
-    }
-    pub mod w_1_3 {
-        include!(concat!(env!("OUT_DIR"), "/w_1_3.rs"));
-    }
-    pub mod w_2_3 {
-        include!(concat!(env!("OUT_DIR"), "/w_2_3.rs"));
-    }
-    pub mod w_2_4 {
-        include!(concat!(env!("OUT_DIR"), "/w_2_4.rs"));
-    }
-    pub mod w_3_5 {
-        include!(concat!(env!("OUT_DIR"), "/w_3_5.rs"));
-    }
-    pub mod join {
-        include!(concat!(env!("OUT_DIR"), "/join.rs"));
-    }
-}
 
 fn main() {
     let args = hv_common::Args::parse();
+    // stageleft resolves the flows crate through `proc_macro_crate` (reads $CARGO_MANIFEST_DIR/Cargo.toml)
+    // when a flow is built at run time, exactly as it does inside build.rs
+    // SAFETY: single-threaded, before anything else runs
+    unsafe { std::env::set_var("CARGO_MANIFEST_DIR", env!("CARGO_MANIFEST_DIR")) };
     hv_common::quiet_panics();
     match args.mode.as_str() {
         "c35" => c35::main(&args),
         "c39" => c39::main(&args),
+        "c41" => c41::main(&args),
         m => {
             eprintln!("unknown mode {m}");
             std::process::exit(2)
